@@ -279,6 +279,20 @@ func (n *stubNet) probe(b *stubBackend, r *http.Request) (*http.Response, error)
 	return &http.Response{StatusCode: 200, Status: "200 OK", Proto: "HTTP/1.1", ProtoMajor: 1, ProtoMinor: 1, Header: http.Header{}, Body: io.NopCloser(strings.NewReader("ok")), Request: r}, nil
 }
 
+// dispatchedTo names the backend request id was dispatched to ("" if none). It looks from the
+// newest event backwards and copies nothing: scenarios ask after every request, and a copy of a list
+// that grows with every request makes a long run quadratic.
+func (n *stubNet) dispatchedTo(id int) string {
+	n.mu.Lock()
+	defer n.mu.Unlock()
+	for i := len(n.events) - 1; i >= 0; i-- {
+		if e := &n.events[i]; e.kind == "dispatch" && e.req == id {
+			return e.backend
+		}
+	}
+	return ""
+}
+
 // snapshot returns a copy of the event list.
 func (n *stubNet) snapshot() []lbEvent {
 	n.mu.Lock()
